@@ -161,6 +161,26 @@ class TokenizerAnalysis:
         if len(loops) != 1:
             raise AnalysisError('token generator %s: expected exactly one top-level `while` loop' % s.gen.name)
         loop = loops[0]
+        # rotated loop:  x = READ; while x is not None: BODY; x = READ   is   while True: x = READ; if x is None: break; BODY
+        # (BODY without `continue`, which would skip the trailing read in the original)
+        li = s.gen.body.index(loop)
+        t_ = loop.test
+        if li > 0 and isinstance(s.gen.body[li - 1], ast.Assign) and len(s.gen.body[li - 1].targets) == 1 and isinstance(s.gen.body[li - 1].targets[0], ast.Name) and not loop.orelse \
+                and isinstance(t_, ast.Compare) and len(t_.ops) == 1 and isinstance(t_.ops[0], ast.IsNot) and isinstance(t_.left, ast.Name) and t_.left.id == s.gen.body[li - 1].targets[0].id \
+                and isinstance(t_.comparators[0], ast.Constant) and t_.comparators[0].value is None and loop.body and isinstance(loop.body[-1], ast.Assign) \
+                and ast.dump(loop.body[-1]) == ast.dump(s.gen.body[li - 1]) and not any(isinstance(x, ast.Continue) for b in loop.body for x in ast.walk(b)):
+            import copy
+            rd = s.gen.body[li - 1]
+            guard = ast.If(test=ast.Compare(left=ast.Name(id=t_.left.id, ctx=ast.Load()), ops=[ast.Is()], comparators=[ast.Constant(value=None)]), body=[ast.Break()], orelse=[])
+            new_loop = ast.While(test=ast.Constant(value=True), body=[copy.deepcopy(rd), guard] + list(loop.body[:-1]), orelse=[])
+            for x_ in (new_loop, guard):
+                ast.copy_location(x_, loop)
+            ast.fix_missing_locations(new_loop)
+            g2 = copy.copy(s.gen)
+            g2.body = list(s.gen.body[:li - 1]) + [new_loop] + list(s.gen.body[li + 1:])
+            s.gen = g2
+            I.methods[g2.name] = g2
+            loop = new_loop
         if not (isinstance(loop.test, ast.Constant) and loop.test.value in (True, 1)) and not loop.orelse:
             # `while C: BODY` is `while True: if not C: break; BODY` (C may bind names with :=)
             import copy
@@ -513,6 +533,10 @@ class TokenizerAnalysis:
         accept, rejects = s.analyse_ctor(mode)
         if not accept:
             raise AnalysisError('constructor accepts no parameter tuple for mode %r' % mode)
+        if any(q.imprecise for q in accept):
+            # a test of the constructor could not be evaluated (an opaque callable, a value of unknown kind): the parameter region the
+            # loop analysis would start from is a guess -- nothing is decided from it
+            raise AnalysisError('a constructor path is modelled imprecisely (%s); the accept region is not known' % next(str(q.imprecise)[:120] for q in accept if q.imprecise))
         # group accept leaves by numeric region
         groups = {}
         for q in accept:
@@ -652,6 +676,18 @@ class TokenizerAnalysis:
         p = Path()
         p.locs['self'] = ('opaque', 'self')
         p.locs[s.src_param] = ('source',)
+        # locals that the statements before the loop bind, once, to something that does not depend on the run's state -- the bound read
+        # method of the source (read = data_source.read), a method of the tokenizer (step = self._process): visible in every iteration
+        for st in getattr(s, 'pre_stmts', []):
+            if isinstance(st, ast.Assign) and len(st.targets) == 1 and isinstance(st.targets[0], ast.Name) and isinstance(st.value, ast.Attribute) and isinstance(st.value.value, ast.Name):
+                nm_, base_, attr_ = st.targets[0].id, st.value.value.id, st.value.attr
+                rebound = sum(1 for x in ast.walk(s.gen) if isinstance(x, ast.Name) and x.id == nm_ and isinstance(x.ctx, ast.Store)) > 1
+                if rebound:
+                    continue
+                if base_ == s.src_param and attr_ == 'read':
+                    p.locs[nm_] = ('srcread',)
+                elif base_ == 'self' and attr_ in s.I.methods:
+                    p.locs[nm_] = ('method', attr_)
         p.flds = dict(s.pflds)
         for f in list(p.flds):
             if f in s.kinds:
